@@ -32,7 +32,13 @@ pub enum Case {
     FieldKey { rename_all: Option<String>, rename: Option<String>, ident: String },
     VariantLit { rename_all: Option<String>, rename: Option<String>, ident: String },
     CommandName { ident: String, with_param: bool },
-    ParamName { ident: String, case: Option<String> },
+    ParamName {
+        ident: String,
+        case: Option<String>,
+        /// the named parameter is a channel (beside an ordinary parameter) instead of a value
+        #[serde(default)]
+        channel: bool,
+    },
     FieldCase { ident: String, case: String },
     EventName { name: String },
     Message { text: String },
@@ -107,9 +113,13 @@ impl Case {
                     s.push_str(&format!("#[tauri::command]\npub fn {}() -> i32 {{ 1 }}\n", ident));
                 }
             }
-            Case::ParamName { ident, case } => {
+            Case::ParamName { ident, case, channel } => {
                 cfg.default_parameter_case = case.clone();
-                s.push_str(&format!("#[tauri::command]\npub fn cmd({}: i32, second_arg: Option<String>) -> i32 {{ 1 }}\n", ident));
+                if *channel {
+                    s.push_str(&format!("#[tauri::command]\npub fn cmd(first_arg: i32, {}: Channel<i32>, last_one: Channel<String>) -> i32 {{ 1 }}\n#[tauri::command]\npub fn only_channels({}: Channel<i32>) -> i32 {{ 1 }}\n", ident, ident));
+                } else {
+                    s.push_str(&format!("#[tauri::command]\npub fn cmd({}: i32, second_arg: Option<String>) -> i32 {{ 1 }}\n", ident));
+                }
             }
             Case::FieldCase { ident, case } => {
                 cfg.default_field_case = Some(case.clone());
@@ -161,9 +171,10 @@ impl Case {
                 m.insert("ident".into(), ident.clone());
                 m.insert("with_param".into(), with_param.to_string());
             }
-            Case::ParamName { ident, case } => {
+            Case::ParamName { ident, case, channel } => {
                 m.insert("ident".into(), ident.clone());
                 m.insert("case".into(), opt(case));
+                m.insert("channel".into(), channel.to_string());
             }
             Case::FieldCase { ident, case } => {
                 m.insert("ident".into(), ident.clone());
@@ -387,9 +398,11 @@ pub fn name_cases(tier: Tier) -> Vec<Case> {
     let param_names = ["a", "user_id", "user_id2", "x_1", "_x", "a__b", "type_", "r#type", "http2_url", "delete", "new", "class", "r#fn", "default"];
     let cases6 = ["camelCase", "snake_case", "PascalCase", "SCREAMING_SNAKE_CASE", "kebab-case", "SCREAMING-KEBAB-CASE"];
     for p in param_names {
-        v.push(Case::ParamName { ident: p.into(), case: None });
-        for c in cases6 {
-            v.push(Case::ParamName { ident: p.into(), case: Some(c.into()) });
+        for channel in [false, true] {
+            v.push(Case::ParamName { ident: p.into(), case: None, channel });
+            for c in cases6 {
+                v.push(Case::ParamName { ident: p.into(), case: Some(c.into()), channel });
+            }
         }
     }
     for id in ["user_id", "a", "http_url", "x1_y"] {
